@@ -296,6 +296,23 @@ def run_text(prog):
                 obs.append(ok(RULE, key, site(g, t["line"]), "line of a block scalar (after the `|` indicator)"))
             else:
                 obs.append(bad(RULE, key, site(g, t["line"]), "user text `%s` is written to the output without escaping and without the bare-word test" % show(d)[:80]))
+    # TOML table headers: every walk over the components of the table path hands each component to escape_key_toml_buf
+    for path in (M + "toml::manifest_table", M + "toml::manifest_table_array"):
+        g = prog.fn(path)
+        key = "toml:header-keys:%s" % short_path(path)
+        if g is None:
+            obs.append(bad(RULE, key, "", "%s not found" % path))
+            continue
+        on_path = lambda d: contains(d, lambda x: x[0] == "param" and x[1] == 2)
+        walks = [b for b, t in g.calls() if not g.is_cleanup(b) and (t.get("fn") or "").endswith(("<impl [T]>::iter", "IntoIterator::into_iter"))
+                 and t["args"] and on_path(strip(g.desc_op(t["args"][0]))) and "Enumerate" not in str((t.get("argtys") or [""])[0])]
+        escs = [b for b, t in g.calls() if not g.is_cleanup(b) and (t.get("res") or t.get("fn") or "").endswith("escape_key_toml_buf")
+                and on_path(strip(g.desc_op(t["args"][0])))]
+        if walks and len(escs) >= 1 and all(any(e in g.reach_from(w) for e in escs) for w in walks):
+            obs.append(ok(RULE, key, site(g), "the path components are written through escape_key_toml_buf"))
+        else:
+            obs.append(bad(RULE, key, site(g), "the `[..]` header is built from the table path without escape_key_toml_buf: a key such as `x.y`, `p q` or the "
+                           "empty key produces a different or malformed table name"))
     floors = [Floor(RULE, "raw user-text writes", n_raw, 5)]
     return obs, floors, {}
 
